@@ -12,6 +12,8 @@ from obligations import scen, pipecommon as pc, c14
 from obligations.scen import OP, u32, tagged_body
 
 
+from obligations import c15
+
 def module(form):
     """form: 'orig' | 'imp-replaced' | 'exp-replaced' (the latter two are the documented results of the edits)"""
     sp = Spec()
@@ -71,8 +73,9 @@ def builder_closure(I, kind):
 
 
 def run_edit(ctx, report, kind, timeout_ms, table):
-    name = {'imp': 'replace_imported_func', 'exp': 'replace_exported_func', 'imp-wrong': 'replace_imported_func on a local function', 'exp-wrong': 'replace_exported_func on a non-exported function'}[kind]
+    name = {'imp': 'replace_imported_func', 'exp': 'replace_exported_func', 'imp-rehomed': 'imports.delete + imports.add of the same function (re-homed import), then replace_imported_func', 'imp-wrong': 'replace_imported_func on a local function', 'exp-wrong': 'replace_exported_func on a non-exported function'}[kind]
     ob = common.Obligation('O18:' + kind, name + ': ' + {'imp': 'identifier kept (callers, table entry and export now reach the new body), exactly that import removed, signature kept, everything else unchanged',
+                                                           'imp-rehomed': 'a multi-step history: the import entry of function 0 is deleted and re-added through the public ModuleImports API, then replaced: no panic, the live import entry is the one removed, result as for `imp`',
                                                            'exp': 'a new function is added, exactly that export retargeted, the original function still serves internal callers and the table, signature kept',
                                                            'imp-wrong': 'returns Err and changes nothing', 'exp-wrong': 'returns Err and changes nothing'}[kind])
     try:
@@ -86,7 +89,25 @@ def run_edit(ctx, report, kind, timeout_ms, table):
             before = __import__('mirsmt.outspec', fromlist=['canon']).canon(P.snap(s, mod))
             if kind.startswith('imp'):
                 fn = I.method('replace_imported_func', impl_ty='Module')
-                fid = bv(0 if kind == 'imp' else 3, 'Id<Function>')
+                fid = bv(3 if kind == 'imp-wrong' else 0, 'Id<Function>')
+                if kind == 'imp-rehomed':
+                    imports_ref = c15.pipeline_field(mref, I.read_ref(s, mref), 'imports')
+                    r = []
+                    I.run(I.method('get_imported_func', 'ModuleImports'), [imports_ref, fid], s, lambda s_, v_: r.append((s_, v_)))
+                    if len(r) != 1 or r[0][1] is PANIC or r[0][1].variant != 'Some':
+                        raise Inconclusive('get_imported_func(0) before the edit: %r' % (r[:1],))
+                    s = r[0][0]
+                    imp_id = I.deref(s, r[0][1].f[0]).get('id')
+                    r = []
+                    I.run(I.method('delete', 'ModuleImports'), [imports_ref, imp_id], s, lambda s_, v_: r.append((s_, v_)))
+                    if len(r) != 1 or r[0][1] is PANIC:
+                        raise Inconclusive('imports.delete before the edit')
+                    s = r[0][0]
+                    r = []
+                    I.run(I.method('add', 'ModuleImports'), [imports_ref, S('e'), S('f'), fid], s, lambda s_, v_: r.append((s_, v_)))
+                    if len(r) != 1 or r[0][1] is PANIC:
+                        raise Inconclusive('imports.add before the edit')
+                    s = r[0][0]
             else:
                 fn = I.method('replace_exported_func', impl_ty='Module')
                 fid = bv(3 if kind == 'exp' else 1, 'Id<Function>')
@@ -108,11 +129,11 @@ def run_edit(ctx, report, kind, timeout_ms, table):
                     vios.append({'key': 'edit.rejects', 'what': '%s returned Err on a valid request' % name})
                     continue
                 rid = conc(v.f[0])
-                if kind == 'imp' and rid != 0:
+                if kind in ('imp', 'imp-rehomed') and rid != 0:
                     vios.append({'key': 'edit.id', 'what': 'replace_imported_func returned id %d, the replaced function had id 0' % rid})
                 if kind == 'exp' and rid == 3:
                     vios.append({'key': 'edit.id', 'what': 'replace_exported_func returned the id of the original function'})
-                want = module('imp-replaced' if kind == 'imp' else 'exp-replaced')
+                want = module('imp-replaced' if kind in ('imp', 'imp-rehomed') else 'exp-replaced')
                 IN = modcmp.in_module(want)
                 for s3, rec, _m in P.run_emit(s2, None, mref=mref):
                     if rec is PANIC:
@@ -320,7 +341,7 @@ def run(tier, seed, only=None):
             run_edit(ctx, report, kind, timeout_ms, table)
         else:
             run_generated_edit(ctx, report, name, sp, kind, table, timeout_ms)
-    items = [('fixed', kind, None, kind) for kind in ('imp', 'exp', 'imp-wrong', 'exp-wrong')]
+    items = [('fixed', kind, None, kind) for kind in ('imp', 'imp-rehomed', 'exp', 'imp-wrong', 'exp-wrong')]
     for n, sp in gl:
         items += [('gen', n, sp, 'imp'), ('gen', n, sp, 'exp')]
     items.append(('gen', 'duplicate-import-names', dup_names_spec(), 'imp'))
